@@ -23,6 +23,7 @@ var terminators = map[string]bool{
 
 func (f *Frame) execCall(instr ssa.Instruction, c *ssa.CallCommon, st *State) *V {
 	r := f.execCallInner(instr, c, st)
+	f.lastCallRes = r
 	if sc := c.StaticCallee(); sc != nil {
 		f.anchorsAfterCall(sc.Name(), st)
 		if sn := ShortName(sc); sn != "" && sn != sc.Name() {
@@ -1113,6 +1114,16 @@ func (f *Frame) anchorsAfterCall(calleeName string, st *State) {
 		}
 		f.usedAnchors[a.Anchor] = true
 		ctx := f.specCtxAt(st, f.curBlock, f.curIdx+1)
+		// the value(s) the call returned: callres, or callres0, callres1, ... for several results
+		if r := f.lastCallRes; r != nil {
+			if _, isTuple := r.Typ.(*types.Tuple); isTuple && r.F != nil {
+				for k, rv := range r.F {
+					ctx.env[fmt.Sprintf("callres%d", k)] = rv
+				}
+			} else {
+				ctx.env["callres"] = r
+			}
+		}
 		label := a.Label
 		if label == "" {
 			label = "0"
